@@ -208,6 +208,62 @@ func analyseFold(fd *ast.FuncDecl) foldFact {
 	return ff
 }
 
+// quoRule classifies the condition of the quotient switch of quoConst: the kinds of the operand constants
+// (`c0, c1 := vConstantValue(v0), vConstantValue(v1)` must be the definition of c0 and c1, and they must be the
+// operands handed to constant.BinaryOp), or the type of the node.
+func quoRule(fO *ast.File, cond string) string {
+	switch cond {
+	case "n.typ.untyped && isInt(n.typ.rtype)":
+		return ".nodeType"
+	case "c0.Kind() == constant.Int && c1.Kind() == constant.Int":
+		fd := common.FindFunc(fO, "", "quoConst")
+		if fd == nil {
+			return ".other"
+		}
+		def, use := false, false
+		ast.Inspect(fd.Body, func(n ast.Node) bool {
+			switch x := n.(type) {
+			case *ast.AssignStmt:
+				if x.Tok == token.DEFINE && render(x) == "c0, c1 := vConstantValue(v0), vConstantValue(v1)" {
+					def = true
+				}
+			case *ast.CallExpr:
+				if cc, ok := isCall(x, "constant", "BinaryOp"); ok && len(cc.Args) == 3 && render(cc.Args[0]) == "c0" && render(cc.Args[2]) == "c1" {
+					use = true
+				}
+			}
+			return true
+		})
+		if def && use {
+			return ".operandKinds"
+		}
+	}
+	return ".other"
+}
+
+// fixSkipsConst: does cfg.go fixUntyped guard its write to sc.types with `!n.rval.IsValid()`?
+func fixSkipsConst(fC *ast.File) string {
+	fd := common.FindFunc(fC, "", "fixUntyped")
+	if fd == nil {
+		return "false /- " + unrec("fixUntyped") + " -/"
+	}
+	res := "false /- " + unrec("no guarded write to sc.types in fixUntyped") + " -/"
+	ast.Inspect(fd.Body, func(n ast.Node) bool {
+		is, ok := n.(*ast.IfStmt)
+		if !ok || len(is.Body.List) != 1 || !strings.HasPrefix(render(is.Body.List[0]), "sc.types[n.findex] =") {
+			return true
+		}
+		switch render(is.Cond) {
+		case "n.findex >= 0 && !n.rval.IsValid()":
+			res = "true"
+		case "n.findex >= 0":
+			res = "false"
+		}
+		return true
+	})
+	return res
+}
+
 func leanTok(t string) string {
 	if t == "" || strings.HasPrefix(t, "var:") {
 		return ".other"
@@ -275,8 +331,8 @@ func evalFacts(repo string) (string, error) {
 			common.LeanStr(fn), entry, tok, ff.toInt, ff.bothMustBeConst, ff.typedArms))
 	}
 	fmt.Fprintf(&b, "/-- interp/op.go: the constant arm (and the operators of the typed arms) of each folding function -/\ndef folds : List FoldFn :=\n  [%s]\n", strings.Join(folds, ",\n   "))
-	fmt.Fprintf(&b, "/-- interp/op.go quoConst: `if <cond> { operator = token.<then> } else { operator = token.<else> }` -/\ndef quoSwitch : QuoSwitch :=\n  { cond := %s, thenTok := %s, elseTok := %s }\n",
-		common.LeanStr(quo.quoCond), leanTok(quo.quoThen), leanTok(quo.quoElse))
-	b.WriteString("def evalFacts : EvalFacts := { constOp := constOp, folds := folds, quo := quoSwitch }\n")
+	fmt.Fprintf(&b, "/-- interp/op.go quoConst: `if <cond> { operator = token.<then> } else { operator = token.<else> }` -/\ndef quoSwitch : QuoSwitch :=\n  { cond := %s, rule := %s, thenTok := %s, elseTok := %s }\n",
+		common.LeanStr(quo.quoCond), quoRule(fO, quo.quoCond), leanTok(quo.quoThen), leanTok(quo.quoElse))
+	fmt.Fprintf(&b, "def evalFacts : EvalFacts := { constOp := constOp, folds := folds, quo := quoSwitch, fixSkipsConst := %s }\n", fixSkipsConst(fC))
 	return b.String(), nil
 }
